@@ -4,6 +4,8 @@ import (
 	"context"
 	"fmt"
 
+	"github.com/aperturerobotics/util/refcount"
+
 	"verifsim/harness/core"
 	"verifsim/simrt"
 )
@@ -96,6 +98,14 @@ func (w *world) runConsumer(x *consumer) {
 		case 1:
 			v, rel, err = w.rc.Resolve(ctx)
 		default:
+			if c.S.FaultP(200) {
+				// the released callback is optional
+				c.S.Count("fault:nil-arg")
+				x.nilCb = true
+				h.autoRelease = true
+				v, rel, err = w.rc.ResolveWithReleased(ctx, nil)
+				break
+			}
 			v, rel, err = w.rc.ResolveWithReleased(ctx, func() {
 				x.relCb++
 				if h.relCalled == 0 {
@@ -145,6 +155,29 @@ func (w *world) runConsumer(x *consumer) {
 		w.holdAndRelease(x, h, rel)
 		if x.kind == 2 && shared == 1 && rc.rel > 0 && rc.relAt < h.relCalled {
 			x.mustFire = true
+		}
+	case 5:
+		// WaitRefCountContainer: waits on the target containers (takes no reference itself)
+		c.Descf("consumer %d: WaitRefCountContainer", x.id)
+		inv := c.Tick()
+		x.inCall = true
+		v, err := refcount.WaitRefCountContainer(ctx, w.target, w.targetErr)
+		ret := c.Tick()
+		x.inCall = false
+		if err != nil {
+			w.checkConsumerError(x, "WaitRefCountContainer", err, ret)
+		} else if v == nil {
+			c.Fail("C10.W5.container-wait-nil", "WaitRefCountContainer returned (nil, nil)")
+		} else {
+			ok := false
+			for _, rc := range w.calls {
+				if rc.v == v && rc.returned != 0 && rc.returned < ret && (rc.rel == 0 || rc.relAt > inv) {
+					ok = true
+				}
+			}
+			if !ok {
+				c.Fail("C10.W5.container-wait-stale-value", "WaitRefCountContainer returned a value that was not the current value at any moment of the call")
+			}
 		}
 	case 4:
 		// AddRefPromise (the mechanism behind Wait/Resolve), awaited later: an await
@@ -269,6 +302,18 @@ func (w *world) checkConsumersQuiescent() {
 	for _, x := range w.consumers {
 		if !x.inCall || !x.task.Blocked() {
 			continue
+		}
+		if x.kind == 5 && x.cancelReq == 0 {
+			if w.target.GetValue() != nil {
+				c.Fail("C10.W5.container-wait-blocked", "WaitRefCountContainer is blocked at a quiescent point although the target container holds a value")
+				return
+			}
+			if w.targetErr != nil {
+				if pe := w.targetErr.GetValue(); pe != nil && *pe != nil {
+					c.Fail("C10.W5.container-wait-blocked", "WaitRefCountContainer is blocked at a quiescent point although the error container holds an error")
+					return
+				}
+			}
 		}
 		if x.kind != 3 {
 			if x.cancelReq != 0 {
